@@ -61,8 +61,12 @@ def fingerprint(rel):
         h = hash(rel)
     except TypeError as e:
         h = f"UNHASHABLE: {e}"
+    # payload slots of everything that is neither a leaf nor a Materialization (SELECT markers, transfers, user markers):
+    # nothing in the library fills them on a relation the caller already holds
+    slots = tuple((type(n).__name__, getattr(n, "payload", None) is None) for n in all_nodes(rel)
+                  if hasattr(n, "payload") and not isinstance(n, (dr.LeafRelation, dr.Materialization)))
     return (str(rel), repr(rel), h, tuple(sorted(map(str, rel.columns))), rel.min_rows, rel.max_rows,
-            bool(rel.is_locked), payload_cells(rel))
+            bool(rel.is_locked), payload_cells(rel), slots)
 
 
 def history(rng):
@@ -240,6 +244,51 @@ def hash_sweep(rng, n):
     return built, bad
 
 
+def compile_purity_cases():
+    """Deterministic: every kind of SQL relation that becomes a subquery of a larger one (a window, a DISTINCT, a UNION, a
+    sorted window, a materialization in its SELECT wrapper) is held by the caller while the larger relation — a selection,
+    a calculation, a join, a chain, a materialization on top of it — is compiled, executed and processed; afterwards the
+    inner relation must be what it was, and processing a materialization of it must still call the hook."""
+    bad, n = [], 0
+    a, b = enc.K(1), enc.K(2)
+    leaf = ("leaf", 1, ("sql", 0), [a, b], [{a: 1, b: 2}, {a: 2, b: 3}, {a: 0, b: 5}], (0, None))
+    other = ("leaf", 2, ("sql", 0), [a, enc.K(3)], [{a: 1, enc.K(3): 7}], (0, None))
+    def U(o, t):
+        return ("un", o, mp.DEFAULT, t)
+    srt = ("sort", [(("ref", a), True), (("ref", b), True)])
+    inners = [U(("slice", 0, 2), U(srt, leaf)), U(("dedup",), leaf), ("chain", leaf, leaf), U(("slice", 1, None), U(srt, leaf)),
+              U(("dedup",), U(("proj", [a]), leaf)), ("mat", 60, U(("sel", ("cmp", "ge", ("ref", a), ("lit", 0))), leaf))]
+    sel = ("sel", ("cmp", "ge", ("ref", a), ("lit", 1)))
+    outers = [("selection", lambda r, o, w: mp.apply_un(r, sel, mp.DEFAULT, w)),
+              ("calculation", lambda r, o, w: mp.apply_un(r, ("calc", enc.N(5), ("add", ("ref", a), ("lit", 1))), mp.DEFAULT, w)),
+              ("join (left)", lambda r, o, w: r.join(o)), ("join (right)", lambda r, o, w: o.join(r)),
+              ("chain with itself", lambda r, o, w: r.chain(r)),
+              ("projection and DISTINCT", lambda r, o, w: mp.apply_un(mp.apply_un(r, ("proj", [a]), mp.DEFAULT, w), ("dedup",), mp.DEFAULT, w)),
+              ("materialization", lambda r, o, w: r.materialized(name="cp_m"))]
+    for ip_ in inners:
+        for what, f in outers:
+            w = mp.World()
+            try:
+                inner = mp.build_impl(ip_, w)
+                outer = f(inner, mp.build_impl(other, w), w)         # built on the very object the caller holds
+            except Exception:  # noqa: BLE001
+                continue
+            n += 1
+            before = fingerprint(inner)
+            try:
+                if not any(isinstance(x, dr.Materialization) for x in all_nodes(outer)):
+                    to_sql_str(outer.engine.to_executable(outer))
+                mp.execute(w, outer)
+            except Exception:  # noqa: BLE001 — C08's concern
+                pass
+            after = fingerprint(inner)
+            if after != before:
+                diffs = [k for k, (x, y) in enumerate(zip(before, after)) if x != y]
+                bad.append({"inner": jsonable(ip_), "outer": what, "problem": f"the inner relation changed (fingerprint fields {diffs}) "
+                            "when a relation built on top of it was compiled / executed"})
+    return n, bad
+
+
 def run(ctx):
     rng = random.Random(ctx.seed)
     s1 = core.s1(ctx, ["Static"], "Properties.C09", THEOREMS)
@@ -249,6 +298,9 @@ def run(ctx):
     swept, unhashable = hash_sweep(rng, 150 if ctx.tier == "quick" else 3000)
     for b in sorted(unhashable, key=lambda b: len(b["tree"]))[:3]:
         found |= ctx.failing_case({"kind": "hashability", "case": b}, None)
+    n_pure, impure = compile_purity_cases()
+    for b in impure[:2]:
+        found |= ctx.failing_case({"kind": "compilation-changed-a-relation-held-by-the-caller", "case": b}, None)
     bad = [h for h in hists if h["problems"]]
     for h in sorted(bad, key=lambda h: len(h["events"]))[:3]:
         found |= ctx.failing_case({"kind": "persistence-or-hash", "case": {"events": h["events"], "problems": h["problems"][:5]}}, None)
